@@ -1899,6 +1899,12 @@ class UserSpaceImpl(*_user_space_impl_base):
                         is_derived=True,
                         refmode=bs[0].refmode
                     )
+                    if name in self.model.global_refs:
+                        # As in on_create_ref: the derived reference shadows
+                        # the global reference of the same name, which
+                        # may have been read through this space
+                        self.model.clear_attr_referrers(
+                            self.model.global_refs[name])
                 else:
                     raise RuntimeError("must not happen")
 
